@@ -4,6 +4,7 @@ import (
 	"fmt"
 	"go/token"
 	"go/types"
+	"os"
 	"sort"
 	"strings"
 
@@ -398,7 +399,48 @@ func (bp *boundsProver) sliceElemInterval(v ssa.Value, depth int) ([2]int64, boo
 			if z, ok := constInt(y.Len); ok && z == 0 {
 				return true
 			}
-			return false
+			// made at its final length and filled by index: the elements are zero or what is stored at
+			// list[i]; the list is used for nothing else than indexing, len and ranging
+			if 0 < lo {
+				lo = 0
+			}
+			if 0 > hi {
+				hi = 0
+			}
+			for _, rf := range refsOf(y) {
+				switch u := rf.(type) {
+				case *ssa.IndexAddr:
+					for _, r2 := range refsOf(u) {
+						switch w := r2.(type) {
+						case *ssa.Store:
+							if w.Addr != ssa.Value(u) {
+								return false
+							}
+							a, b, ok := bp.interval(w.Val, depth)
+							if !ok {
+								return false
+							}
+							if a < lo {
+								lo = a
+							}
+							if b > hi {
+								hi = b
+							}
+						case *ssa.UnOp, *ssa.DebugRef:
+						default:
+							return false
+						}
+					}
+				case *ssa.Call:
+					if bi, ok := u.Common().Value.(*ssa.Builtin); !ok || (bi.Name() != "len" && bi.Name() != "cap") {
+						return false
+					}
+				case *ssa.DebugRef, *ssa.Range, *ssa.Return:
+				default:
+					return false // also a phi: stores through the merged value would not be seen here
+				}
+			}
+			return true
 		case *ssa.Phi:
 			for _, e := range y.Edges {
 				if !walk(e) {
@@ -767,6 +809,8 @@ func (bp *boundsProver) proveGoalAt(at ssa.Instruction, g boundsGoal, av, bv ssa
 	for _, x := range g.xs {
 		fs = append(fs, bp.successLenFacts(at, x)...)
 	}
+	// how the slices whose lengths the facts mention were made
+	fs = append(fs, bp.lenFactsOfMentioned(at.Parent(), fs)...)
 	if proveLE(fs, g.a.term, g.b.term, g.b.off-g.a.off) {
 		return true, ""
 	}
@@ -819,6 +863,12 @@ func (bp *boundsProver) proveGoalAt(at ssa.Instruction, g boundsGoal, av, bv ssa
 			}
 		}
 	}
+	if os.Getenv("VERIF_FACTS") != "" {
+		for _, f := range fs {
+			fmt.Fprintf(os.Stderr, "FACT %q - %q <= %d\n", f.a, f.b, f.c)
+		}
+		fmt.Fprintf(os.Stderr, "GOAL %s <= %s\n", linString(g.a), linString(g.b))
+	}
 	return false, fmt.Sprintf("cannot derive %s <= %s from the %d facts in scope", linString(g.a), linString(g.b), len(fs))
 }
 
@@ -853,7 +903,21 @@ func (bp *boundsProver) storeFacts(at ssa.Instruction) []bfact {
 	for _, b := range fn.Blocks {
 		for _, in := range b.Instrs {
 			st, ok := in.(*ssa.Store)
-			if !ok || !isIntLike(st.Val.Type()) || !domInstr(st, at) {
+			if !ok || !domInstr(st, at) {
+				continue
+			}
+			if _, isSlice := st.Val.Type().Underlying().(*types.Slice); isSlice {
+				// a slice stored into a field: the field's length is the stored slice's length for as long as
+				// nothing else is stored there
+				if _, isField := st.Addr.(*ssa.FieldAddr); isField && bp.onlyStoreTo(fn, st) {
+					ln := "len(*(" + memName(st.Addr) + "))"
+					lv := "len(" + memName(st.Val) + ")"
+					fs = append(fs, bfact{ln, lv, 0}, bfact{lv, ln, 0})
+					fs = append(fs, bp.lenFacts(st.Val, 3)...)
+				}
+				continue
+			}
+			if !isIntLike(st.Val.Type()) {
 				continue
 			}
 			name := "*(" + memName(st.Addr) + ")"
@@ -881,6 +945,91 @@ func (bp *boundsProver) storeFacts(at ssa.Instruction) []bfact {
 		}
 	}
 	return fs
+}
+
+// lenFactsOfMentioned: for every term len(v:tN) occurring in the facts, the length facts of the value tN of fn.
+func (bp *boundsProver) lenFactsOfMentioned(fn *ssa.Function, fs []bfact) []bfact {
+	want := map[string]bool{}
+	for _, f := range fs {
+		for _, t := range []string{f.a, f.b} {
+			if strings.HasPrefix(t, "len(v:") && strings.HasSuffix(t, ")") {
+				want[t[len("len(v:"):len(t)-1]] = true
+			}
+		}
+	}
+	if len(want) == 0 {
+		return nil
+	}
+	var out []bfact
+	for _, b := range fn.Blocks {
+		for _, in := range b.Instrs {
+			v, ok := in.(ssa.Value)
+			if !ok || !want[v.Name()] {
+				continue
+			}
+			switch v.(type) {
+			case *ssa.MakeSlice, *ssa.Slice:
+				out = append(out, bp.lenFacts(v, 3)...)
+			}
+		}
+	}
+	return out
+}
+
+// onlyStoreTo: st is the only store of the function to its address expression, and no call between could reach
+// it other than the cursor's own methods (which take the cursor, not the object).
+func (bp *boundsProver) onlyStoreTo(fn *ssa.Function, st *ssa.Store) bool {
+	for _, b := range fn.Blocks {
+		for _, in := range b.Instrs {
+			if s2, ok := in.(*ssa.Store); ok && s2 != st && memName(s2.Addr) == memName(st.Addr) {
+				return false
+			}
+			// the object the field belongs to is handed to a call after the store: the callee may reassign it
+			if c, ok := in.(ssa.CallInstruction); ok {
+				fa := st.Addr.(*ssa.FieldAddr)
+				for _, a := range c.Common().Args {
+					if a == fa.X && !domInstr(in, st) {
+						if f := c.Common().StaticCallee(); f != nil && writesField(f, fa) {
+							return false
+						} else if f == nil {
+							return false
+						}
+					}
+				}
+			}
+		}
+	}
+	return true
+}
+
+// writesField: f (or what it statically calls, two levels) stores to the field addressed by fa of some object.
+func writesField(f *ssa.Function, fa *ssa.FieldAddr) bool {
+	seen := map[*ssa.Function]bool{}
+	var walk func(g *ssa.Function, d int) bool
+	walk = func(g *ssa.Function, d int) bool {
+		if g == nil || seen[g] || d == 0 {
+			return g != nil && d == 0 && len(g.Blocks) > 0
+		}
+		seen[g] = true
+		for _, b := range g.Blocks {
+			for _, in := range b.Instrs {
+				if s, ok := in.(*ssa.Store); ok {
+					if f2, ok := s.Addr.(*ssa.FieldAddr); ok && f2.Field == fa.Field && types.Identical(derefT(f2.X.Type()), derefT(fa.X.Type())) {
+						return true
+					}
+				}
+				if c, ok := in.(ssa.CallInstruction); ok {
+					if cf := c.Common().StaticCallee(); cf != nil && cf.Pkg == g.Pkg {
+						if walk(cf, d-1) {
+							return true
+						}
+					}
+				}
+			}
+		}
+		return false
+	}
+	return walk(f, 3)
 }
 
 // obligationsOf lists the index/slice obligations of a function.
